@@ -229,7 +229,10 @@ const (
 type Rule struct {
 	Target string `json:"target"` // instance id
 	At     string `json:"at"`
-	Action string `json:"action"` // "substitute" | "self" (beforeInst only: answer with the registered instance itself)
+	// Action: "substitute" | "self" (beforeInst only: answer with the registered instance itself)
+	// | "lookup" (the processor looks the instance named by Sub up through the container from
+	// inside the callback; afterInst / props / before / after)
+	Action string `json:"action"`
 	Sub    string `json:"sub"`    // substitute slot name: rules that share Sub return the same object
 	// SubType: type of the substitute object ("" = the component's own type). A wrapper of
 	// another type may implement interfaces the component itself does not.
@@ -249,6 +252,9 @@ type Scanner struct {
 	// Handler: besides its tag the scanner recognises fields through an extract handler
 	// (fields carrying the struct tag `<tag>h`).
 	Handler bool `json:"handler,omitempty"`
+	// Inventory: after scanning a component the scanner reads the list of all properties the
+	// definition holds so far (observation only).
+	Inventory bool `json:"inventory,omitempty"`
 }
 
 type Source struct {
